@@ -7,6 +7,7 @@ package headdisk
 import (
 	"errors"
 	"fmt"
+	"math"
 	"path/filepath"
 
 	"github.com/prometheus/prometheus/model/labels"
@@ -29,6 +30,7 @@ type Rec struct {
 	SampleTs   []int64
 	SampleVals []float64
 	TombRefs   []uint64
+	TombFull   []bool // the tombstone covers [MinInt64, MaxInt64]: the series was evicted
 	MarkerRefs []uint64
 }
 
@@ -120,6 +122,7 @@ func scanDir(src string, rg wlog.SegmentRange) (recs []Rec, tailErr error, err e
 			}
 			for _, t := range ts {
 				rec.TombRefs = append(rec.TombRefs, uint64(t.Ref))
+				rec.TombFull = append(rec.TombFull, len(t.Intervals) == 1 && t.Intervals[0].Mint == math.MinInt64 && t.Intervals[0].Maxt == math.MaxInt64)
 			}
 		case record.MmapMarkers:
 			ms, e := dec.MmapMarkers(b, nil)
@@ -162,6 +165,61 @@ func LateSeriesRecords(recs []Rec) int {
 		}
 	}
 	return late
+}
+
+// LateSeriesSamples bounds the work a replay may do and undo because of late series records: the
+// number of samples logged for a series (same ref, or an earlier ref of the same label set) in
+// front of a later series record of that series.
+func LateSeriesSamples(recs []Rec) int {
+	count := map[uint64]int{}
+	byLabels := map[string][]uint64{}
+	n := 0
+	for _, r := range recs {
+		for _, ref := range r.SampleRefs {
+			count[ref]++
+		}
+		for _, s := range r.Series {
+			k := s.Labels.String()
+			n += count[uint64(s.Ref)]
+			count[uint64(s.Ref)] = 0
+			for _, o := range byLabels[k] {
+				n += count[o]
+				count[o] = 0
+			}
+			byLabels[k] = append(byLabels[k], uint64(s.Ref))
+		}
+	}
+	return n
+}
+
+// TombstonedRefs returns the refs named by tombstone records (deletions and evictions).
+func TombstonedRefs(recs []Rec) map[uint64]bool {
+	out := map[uint64]bool{}
+	for _, r := range recs {
+		for _, ref := range r.TombRefs {
+			out[ref] = true
+		}
+	}
+	return out
+}
+
+// ReintroducedRefs returns the refs for which a series record follows an eviction tombstone of
+// the same ref (the ref was handed out again after the series had been evicted).
+func ReintroducedRefs(recs []Rec) map[uint64]bool {
+	evicted, out := map[uint64]bool{}, map[uint64]bool{}
+	for _, r := range recs {
+		for i, ref := range r.TombRefs {
+			if r.TombFull[i] {
+				evicted[ref] = true
+			}
+		}
+		for _, s := range r.Series {
+			if evicted[uint64(s.Ref)] {
+				out[uint64(s.Ref)] = true
+			}
+		}
+	}
+	return out
 }
 
 // RefClashes returns the series refs that carry more than one label set in the records
